@@ -1,32 +1,26 @@
 ------------------------------- MODULE MCSdlQuick -------------------------------
 EXTENDS MCSdl
 
-\* every CPU amount with at most two decimals from 0.01 to 10.00, a few millis, a few fixed 3-digit forms
-CpusQuick == { CpuDec(10 * k) : k \in 1..1000 } \cup { CpuM(m) : m \in {10, 100, 1500, 10000, 9, 10001} }
-             \cup { CpuDec3(m) : m \in {100, 1001, 2500} }
 \* ---- quick ----
 QuickSlices == <<
   \* A: one service, every body kind x every expose kind, one or two placements
-  Sl(<<"web">>, <<"large">>, <<"east", "west">>, [s \in {"web"} |-> AllBodies], [s \in {"web"} |-> AllKinds],
-     {1, 50}, [c \in {"large"} |-> "QLarge"]),
+  Sl("A", <<"web">>, <<"large">>, <<"east", "west">>, [s \in {"web"} |-> AllBodies], [s \in {"web"} |-> AllKinds],
+     {1, 49}, [c \in {"large"} |-> <<List(<<QLarge>>)>>]),
   \* B: two services on one placement, two profiles
-  Sl(<<"api", "web">>, <<"large", "small">>, <<"east">>,
+  Sl("B", <<"api", "web">>, <<"large", "small">>, <<"east">>,
      [s \in {"api", "web"} |-> IF s = "web" THEN AllBodies ELSE NoneAll],
      [s \in {"api", "web"} |-> IF s = "web" THEN {"none", "http", "two", "fan"} ELSE {"none", "httphosts", "local", "udp"}],
-     {2}, [c \in {"large", "small"} |-> IF c = "large" THEN "QLarge" ELSE "QSmall"]),
+     {2}, [c \in {"large", "small"} |-> IF c = "large" THEN <<List(<<QLarge>>)>> ELSE <<List(<<QSmall>>)>>]),
   \* C: two services, two profiles, two placements, every deployment mapping
-  Sl(<<"api", "web">>, <<"large", "small">>, <<"east", "west">>,
+  Sl("C", <<"api", "web">>, <<"large", "small">>, <<"east", "west">>,
      [s \in {"api", "web"} |-> IF s = "web" THEN NoneAll ELSE {{"command", "args", "env"}}],
      [s \in {"api", "web"} |-> IF s = "web" THEN {"http", "two"} ELSE {"local", "udp"}],
-     {1}, [c \in {"large", "small"} |-> IF c = "large" THEN "QLarge" ELSE "QOdd"]),
-  \* D: unit forms
-  UnitsSlice >>
-
-
-\* the unit universe of this tier (built on use: see Sdl!QuantsOf)
-TierQuants(tag) == IF tag = "units" THEN QuantsVarying(CpusQuick,
-             UNION {MemForms, DecForms("G", 0..17), DecForms("M", {1, 4, 8, 16, 100})},
-             UNION {StorageForms, DecForms("G", 0..20), DecForms("M", 4..8)}) ELSE BaseQuants(tag)
+     {1}, [c \in {"large", "small"} |-> IF c = "large" THEN <<List(<<QLarge>>)>> ELSE <<List(<<QOdd>>)>>]),
+  \* D: unit forms -- every milli-CPU amount in decimal spelling in 0.01..0.3, 1.99..2.11, 4.0..4.1, 8.0..8.2,
+  \* memory n.t G for n in 0..17, n.t M, storage n.t G / M, hand picked forms and attribute variants
+  UnitsSlice("D", << CpuEdge, CpuFam("dec", 10, 300), CpuFam("dec", 1990, 2110), CpuFam("dec", 4000, 4100),
+                     CpuFam("dec", 8000, 8200), CpuFam("dec3", 1000, 1020), MemForms, MemFam("G", 0, 17),
+                     MemFam("M", 4, 8), StorageForms, StorageFam("G", 0, 20), StorageFam("M", 4, 8), AttrForms >>) >>
 
 ASSUME ExportDocs(Slices)
 =============================================================================
